@@ -110,6 +110,9 @@ pub enum GenerateError {
     /// Unbounded arrays are not implemented
     UnimplementedUnboundedArray,
 
+    /// Input globals that are not resources do not receive a binding so can not be passed to an entry point
+    UnimplementedGlobalConstant,
+
     /// Task shader generation of object shaders is not implemented
     UnimplementedTaskShader,
 
